@@ -239,8 +239,8 @@ func Main(tier, replay string) {
 	} else if tier == "thorough" {
 		singles = f.Cases
 	} else {
-		for i, c := range f.Cases {
-			if i%12 == 0 {
+		for _, c := range f.Cases {
+			if core.Pick(c.ID, 12) {
 				singles = append(singles, c)
 			}
 		}
